@@ -105,6 +105,10 @@ def generate(rng, tier="quick"):
     if rng.random() < 0.3:
         # serialize again after finish and restore once more: still the same session data
         steps += [{"op": "serialize", "n": 1}]
+    for st in steps:
+        if st["op"] == "recover" and st["n"] == 0 and rng.random() < 0.12:
+            st["blob_as"] = "bytearray"
+            st["scrub"] = rng.random() < 0.7
     cfg = {"psets": [pspec], "nodes": nodes}
     if procs:
         cfg["fresh_hosts"] = True
